@@ -13,8 +13,10 @@ func controls() map[string]string {
 const controlSrc = `package obj
 
 import (
+	"bufio"
 	"fmt"
 	"io"
+	"strings"
 
 	"github.com/EliCDavis/iter"
 	"github.com/EliCDavis/polyform/formats/txt"
@@ -351,6 +353,79 @@ func verifControlIdentGood(ms []modeling.Material, ps []*modeling.Material, mesh
 		}
 	}
 	return table
+}
+
+// ---------------------------------------------------------------- records, sinks, names
+
+// a record finished without having been started: the previous one is emitted again
+func verifControlIOBad_ENTRY1(out io.Writer, nilMat bool) {
+	w := txt.NewWriter(out)
+	w.StartEntry()
+	w.String("f 1 2 3\n")
+	w.FinishEntry()
+	if nilMat {
+		w.String("usemtl Default\n")
+		w.FinishEntry()
+	}
+}
+
+// records go through a buffer, the group line goes to the raw destination
+func verifControlIOBad_SINK1(out io.Writer) error {
+	b := bufio.NewWriter(out)
+	w := txt.NewWriter(b)
+	w.StartEntry()
+	w.String("v 0 0 0\n")
+	w.FinishEntry()
+	fmt.Fprintf(out, "g %s\n", "a")
+	return b.Flush()
+}
+
+// every line is cut at the first '#'
+func verifControlIOBad_NAME2(in io.Reader) []string {
+	var names []string
+	sc := bufio.NewScanner(in)
+	for sc.Scan() {
+		line := sc.Text()
+		if i := strings.IndexByte(line, '#'); i >= 0 {
+			line = line[:i]
+		}
+		fields := strings.Fields(line)
+		if len(fields) > 1 && fields[0] == "g" {
+			names = append(names, strings.Join(fields[1:], " "))
+		}
+	}
+	return names
+}
+
+// accepted: bracketing helper taking the body, one buffered path flushed at the end, comment lines skipped whole
+func verifControlIOGood(out io.Writer, in io.Reader) ([]string, error) {
+	b := bufio.NewWriter(out)
+	w := txt.NewWriter(b)
+	entry := func(body func()) {
+		w.StartEntry()
+		body()
+		w.FinishEntry()
+	}
+	entry(func() { w.String("v 0 0 0"); w.NewLine() })
+	fmt.Fprintf(b, "g %s\n", "a")
+	entry(func() {
+		w.String("f ")
+		w.Int(1)
+		w.NewLine()
+	})
+	var names []string
+	sc := bufio.NewScanner(in)
+	for sc.Scan() {
+		line := sc.Text()
+		if t := strings.TrimSpace(line); t == "" || strings.HasPrefix(t, "#") {
+			continue
+		}
+		fields := strings.Fields(line)
+		if len(fields) > 1 && fields[0] == "g" {
+			names = append(names, strings.Join(fields[1:], " "))
+		}
+	}
+	return names, b.Flush()
 }
 
 // ---------------------------------------------------------------- writer
